@@ -195,7 +195,7 @@ impl Model {
         *c += 1;
         self.loader_faults
             .iter()
-            .find(|((t, k, o), _)| t == tag && k == key && *o == occ)
+            .find(|((t, k, o), _)| t == tag && k == key && (*o == occ || *o == usize::MAX))
             .map(|(_, f)| *f)
             .or_else(|| {
                 self.loader_nth_faults
